@@ -204,3 +204,13 @@ func headerPhi(fn *ssa.Function, comment string) *ssa.Phi {
 	}
 	return nil
 }
+
+// onEdge reports whether block cur can only be reached through the idx-th out-edge of d
+// (edge dominance): the edge's target dominates cur and has d as its only predecessor.
+func onEdge(d *ssa.BasicBlock, idx int, cur *ssa.BasicBlock) bool {
+	if idx >= len(d.Succs) {
+		return false
+	}
+	s := d.Succs[idx]
+	return (s == cur || s.Dominates(cur)) && len(s.Preds) == 1
+}
